@@ -325,6 +325,19 @@ func c10WinCert(c *hx.Ctx, in, payload []byte, class string) {
 		bad("encoding a decoded value does not reproduce the consumed bytes", map[string]any{"encoded": hx8(enc.Bytes())})
 		return
 	}
+	// an *os.File that is not a regular file (a pipe: Stat().Size() is 0): what arrives is what counts
+	if pr, pw, perr := os.Pipe(); perr == nil {
+		go func() { pw.Write(full); pw.Close() }()
+		var wp signature.WINCertificate
+		var e2 error
+		pn := hx.Try(func() { wp, e2 = signature.ReadWinCertificate(pr) })
+		rest, _ := io.ReadAll(pr)
+		pr.Close()
+		if pn != nil || e2 != nil || !bytes.Equal(wp.Certificate, want.Body) || !bytes.Equal(rest, payload) {
+			bad("decoding from a pipe (*os.File whose size is unknown) fails or differs", map[string]any{"error": fmt.Sprint(e2, pn), "rest": len(rest)})
+			return
+		}
+	}
 	// a *bufio.Reader: the decoded body must survive the reader refilling its buffer
 	{
 		big := append(append([]byte{}, full...), fill(9000, 0x6e)...)
@@ -385,6 +398,22 @@ func c10Run(c *hx.Ctx, tier, unit string) {
 							}
 							c10Auth(c, in, p, "synthetic")
 						}
+					}
+				}
+			}
+		}
+		// certificate data that is a DER element followed by 0..8 more bytes inside dwLength (zero or
+		// not), for the PKCS#7 type GUID and another one: every DER length 2..17 so that every residue
+		// of the length mod 8 meets every pad
+		for _, g := range []refesl.GUID{guidPKCS7, ownerA} {
+			for pad := 0; pad <= 8; pad++ {
+				for _, pb := range []byte{0x00, 0x5c} {
+					for dl := 0; dl <= 15; dl++ {
+						if !c.Next() {
+							continue
+						}
+						cd := append(append([]byte{0x30, byte(dl)}, fill(dl, 0x02)...), bytes.Repeat([]byte{pb}, pad)...)
+						c10Auth(c, refauth.Auth2{Time: c10Times()[1], Length: uint32(24 + len(cd)), Revision: 0x0200, Type: 0x0EF1, CertType: g, CertData: cd}.Bytes(), fill(9, 0x31), "synthetic, DER certificate data with trailing bytes inside dwLength")
 					}
 				}
 			}
